@@ -144,6 +144,12 @@ def run(tier, replay):
         for b in bads:
             if b["what"] == "impl-vs-ref":
                 continue  # reported through "ref" against the real result
+            if b["what"] == "impl":
+                # MatchImpl mirrors lungo outside the core domain too; there the property leaves the result open
+                # (only the laws, checked on the real code above, are demanded), so a difference is drift of the
+                # specification, not a violation.  Inside the core domain the same case is judged through "ref".
+                c.add("spec_drift_outside_core_not_judged")
+                continue
             e = json.loads(lines[b["l"] - 1])
             ops = ",".join(sorted(ops_of(e["q"], set()))) or "eq"
             key = "match:%s:%s" % (b["what"], ops)
